@@ -882,3 +882,18 @@ fn floor_log2_of_long(x: u64) -> u8 {
         }
     }
 }
+
+/// Verification hook: the ENCODING tables (length-limited unary codes, high-entropy byte
+/// codes per pseudo-phase, column permutations per phase) for an independent decompressor.
+#[cfg(feature = "verif-hooks")]
+pub fn verif_tables() -> (
+    &'static [u16; 65],
+    &'static [[u16; 256]; 22],
+    &'static [[u8; 56]; 16],
+) {
+    (
+        &LENGTH_LIMITED_UNARY_ENCODING_TABLE65,
+        &ENCODING_TABLES_FOR_HIGH_ENTROPY_BYTE,
+        &COLUMN_PERMUTATIONS_FOR_ENCODING,
+    )
+}
